@@ -676,6 +676,20 @@ static void child_crash_handler(int sig)
   // std::terminate, assert): report it as a violation with the decisions taken so far. A run that
   // exceeds its wall budget is a violation only on the single-task lanes (totality); on the
   // simulated-thread lanes it would point at the simulator itself and stays 'broken'.
+  if (sig == SIGALRM && g.scen && g.active && !g.scen->nontrivial_faults && g_child_fd >= 0) {
+    // simulated-thread lanes: instrumented code that loops for ever runs into the step cap, so a run that is still going when
+    // the wall-clock alarm fires is a slow simulation (a hundred simulated threads on a loaded machine), not an outcome of the
+    // code under test. It is counted as inconclusive, like a step-cap run, and the batch goes on after it.
+    MsgRun m;
+    memset(&m, 0, sizeof m);
+    m.index = g_cur_index;
+    m.result = RES_CAP;
+    m.steps = g.steps;
+    send_msg(g_child_fd, 'R', &m, sizeof m);
+    g_batch.runs++;
+    send_msg(g_child_fd, 'B', &g_batch, sizeof g_batch);
+    _exit(0);
+  }
   if (g.scen && g.active && (sig != SIGALRM || g.scen->nontrivial_faults)) {
     char w[64];
     snprintf(w, sizeof w, sig == SIGALRM ? "no-termination-within-wall-budget" : (sig == SIGABRT ? "abort (std::terminate / assert)" : "signal-%d"), sig);
@@ -1002,7 +1016,7 @@ static int cmd_worker(int argc, char **argv)
   uint64_t master = 1, first = 0, stride = 1, maxruns = ~0ULL;
   double wall = 10;
   int tier = 0, worker = 0, batch = 500;
-  unsigned per_run_alarm = 60;
+  unsigned per_run_alarm = 120;
   int pin = -1;
   const char *dump_path = nullptr;
   for (int i = 2; i < argc; i++) {
